@@ -12,7 +12,7 @@ class C11(Property):
     title = "Released resources return exactly what was reserved"
     lean_targets = ["SFV.Props.C11", "SFV.Model.SchedProto"]
     props_files = ["SFV/Props/C11.lean"]
-    drivers = ["Drivers/C10.lean"]
+    drivers = ["Drivers/C10.lean", "Drivers/C10Hyp.lean"]
     translators = [schedguards.generate]
     rule = SCHED_RULE + (" Every history is driven to completion (every job notified to a non-occupying status, in random order, with "
                          "duplicates); whenever no job is FIREABLE/RUNNING the reserved cores and memory of every location must be exactly "
